@@ -84,17 +84,27 @@ static void setup(Chai &chai) {
   }
 }
 
+static std::string eval_error_res(const chaiscript::exception::eval_error &e) {
+  const std::string w = why(e.reason);
+  return w == "BREAK" ? "err break-outside-loop" : w == "CONTINUE" ? "err continue-outside-loop" : "err eval_error " + w;
+}
+
+// `ast` != nullptr: evaluate that (already parsed) tree instead of the text (property C08: a tree may be evaluated repeatedly)
 template<typename Chai>
-static std::string run_one(Chai &chai, const std::string &src) {
+static std::string run_one(Chai &chai, const std::string &src, const AST_Node *ast = nullptr) {
   g_out.clear(); g_nat.clear(); g_count = 0;
   std::string res;
   try {
-    Boxed_Value v = chai.eval(src);
+    Boxed_Value v = ast ? chai.eval(*ast) : chai.eval(src);
     res = "val " + show(v);
   } catch (const chaiscript::exception::eval_error &e) {
-    const std::string w = why(e.reason);
-    res = w == "BREAK" ? "err break-outside-loop" : w == "CONTINUE" ? "err continue-outside-loop" : "err eval_error " + w;
-  } catch (const Boxed_Value &bv) { res = "thrown " + show(bv);
+    res = eval_error_res(e);
+  } catch (const Boxed_Value &bv) {
+    if (ast && bv.get_type_info().bare_equal(user_type<chaiscript::exception::eval_error>())) {
+      res = eval_error_res(boxed_cast<const chaiscript::exception::eval_error &>(bv));      // eval(AST_Node) boxes eval_errors
+    } else {
+      res = "thrown " + show(bv);
+    }
   } catch (const chaiscript::exception::arithmetic_error &) { res = "cpp runtimeError";
   } catch (const std::out_of_range &) { res = "cpp outOfRange";
   } catch (const std::runtime_error &) { res = "cpp runtimeError";
@@ -158,17 +168,42 @@ int main() {
     chaiscript::detail::Dispatch_Engine::verif_ignore_hints() = (w[2] == "0");
     const std::string src = vh::hex_decode(w[4]);
     std::string out;
-    if (w[3] == "noopt") {
+    // "<mode>3": parse once, evaluate the same tree three times from the same engine state; the three reports must be equal
+    auto thrice = [&src](auto &chai, auto &pool) {
+      std::string first;
+      try {
+        auto ast = chai.parse(src);
+        std::string diff;
+        for (int k = 0; k < 3; ++k) {
+          const std::string o = run_one(chai, src, ast.get());
+          if (k == 0) first = o; else if (o != first && diff.empty()) diff = " reeval=DIFF@" + std::to_string(k + 1) + ":" + o;
+          pool.release(o);
+          if (!pool.chai) break;
+        }
+        return first + (diff.empty() ? " reeval=same" : diff);
+      } catch (const chaiscript::exception::eval_error &e) {
+        return std::string("res=parse-error ") + vh::clean(e.reason, 60);
+      }
+    };
+    if (w[3] == "noopt" || w[3] == "noopt3") {
       auto &chai = noopt.get([] {
         return std::make_unique<ChaiScript_Basic>(chaiscript::Std_Lib::library(),
                                                   std::make_unique<parser::ChaiScript_Parser<eval::Noop_Tracer, optimizer::Optimizer<Identity_Pass>>>());
       });
-      out = run_one(chai, src);
-      noopt.release(out);
+      if (w[3] == "noopt3") {
+        out = thrice(chai, noopt);
+      } else {
+        out = run_one(chai, src);
+        noopt.release(out);
+      }
     } else {
       auto &chai = opt.get([] { return std::make_unique<ChaiScript>(); });
-      out = run_one(chai, src);
-      opt.release(out);
+      if (w[3] == "opt3") {
+        out = thrice(chai, opt);
+      } else {
+        out = run_one(chai, src);
+        opt.release(out);
+      }
     }
     std::cout << out << "\n" << std::flush;
   }
